@@ -1,7 +1,30 @@
 open BinNums
 open BinPos
+open Datatypes
 
 module Z :
  sig
+  val double : coq_Z -> coq_Z
+
+  val succ_double : coq_Z -> coq_Z
+
+  val pred_double : coq_Z -> coq_Z
+
+  val pos_sub : positive -> positive -> coq_Z
+
+  val add : coq_Z -> coq_Z -> coq_Z
+
+  val opp : coq_Z -> coq_Z
+
+  val mul : coq_Z -> coq_Z -> coq_Z
+
+  val compare : coq_Z -> coq_Z -> comparison
+
+  val leb : coq_Z -> coq_Z -> bool
+
   val eqb : coq_Z -> coq_Z -> bool
+
+  val of_nat : nat -> coq_Z
+
+  val of_N : coq_N -> coq_Z
  end
